@@ -125,6 +125,9 @@ def build(prop, tier="quick"):
     t.complete = True
     kb.targets.append(t)
     kb.static_facts.append(reserved_fact())
+    if tier == "thorough":
+        rc, cases, err = _run_probe(["search"])
+        kb.static_facts.append(("native battery (thorough tier): probe_words.cpp on the real engine", rc == 0 and not cases, (err.strip() + " " + str(cases[:3]))[:400]))
     kb.assumptions += ["std::string_view modelled as (bytes, length); `view == \"literal\"` is size and byte equality ([string.view.comparison])",
                        "the case BODIES of Id()'s switch (which constant each word becomes) are not under contract: only which case is taken"]
     kb.unverified += ["which value each literal word evaluates to (Constant_AST_Node construction in the case bodies)",
